@@ -584,6 +584,8 @@ func runC18(c *report.Ctx) {
 
 	// ---- (5) next index from the transaction ---------------------------------------------------------------------
 	ruleNextIndexFromTx(c)
+	ruleFailedBatchNotFinished(c)
+	ruleSoleWriter(c)
 	_ = sort.Strings
 }
 
